@@ -875,6 +875,8 @@ var methodTypeCases = []MethodTypeCase{
 	{"zt", "=zt"}, {"oz.zt", "=zt"}, {"tmz.z", "=zt"}, {"hz.T", "=zt"}, {"this.zt", "=zt"}, {"oz!.zt", "=zt"}, {"oz.zt == null", "false"}, {"tmz.z === null", "false"}, {"oz.zt ?? 'd'", "=zt"}, {"hz.T ?? 'd'", "=zt"},
 	{"year(oz.zt)", "1"}, {"this.zts ?? 'd'", "=zts"}, {"[oz.zt, tmz.z]", "=[zt, zt]"},
 	{"p == null", "false"}, {"lm == null", "false"}, {"ll ?? 'd'", "=ll"}, {"rows", "=rows"},
+	// methods are no members: a struct is read field by field
+	{"p.String", "ERROR"}, {"p.MarshalJSON ?? 1", "ERROR"}, {"o.p.String", "ERROR"}, {"typeof p.String", "ERROR"}, {"zt.Year", "ERROR"}, {"zt.IsZero ?? 1", "ERROR"}, {"hz.T.Unix", "ERROR"}, {"this.p!.String", "ERROR"},
 }
 
 var c16Methods = core.Mon(c16, "types-with-methods", func(w *core.W, c *MethodTypeCase) {
